@@ -18,4 +18,18 @@ PROPS = {
         trusted_base=["usize is 64 bits", "AtomicUsize::fetch_add is a linearizable counter (modelled as a sequential counter)"],
         assumptions=["token round trip holds for raw ids below 2^(64-RESERVED_BITS): base values below 2^55 (stated in the theorem)"],
     ),
+    "C02": dict(
+        coq=["props/C02.vo"], props=["props/C02.v"],
+        runs=[dict(core="decoder", profile="debug", args=["wf"]), dict(core="decoder", profile="release", args=["wf"])],
+        nontrivial="distinct (stream, chunking) pairs; prefix cases distinct by value",
+        trusted_base=["integer-encoding's LEB128 is modelled from its locked source (Varint.v) and tied by the encsz/decsz correspondence"],
+        assumptions=["payload lengths below 2^64 (every Rust slice)", "usize is 64 bits"],
+    ),
+    "C17": dict(
+        coq=["props/C17.vo"], props=["props/C17.v"],
+        runs=[dict(core="decoder", profile="debug", args=["hostile"]), dict(core="decoder", profile="release", args=["hostile"])],
+        nontrivial="distinct (byte string, chunking) pairs",
+        trusted_base=["tungstenite's own parser on hostile bytes is an oracle (sampled by the hostile-peer scenarios, not proved)", KERNEL_ORACLES],
+        assumptions=["usize is 64 bits"],
+    ),
 }
